@@ -1,8 +1,93 @@
 """Generated-package preparation for the driver: builds /repo's generator from the working
-tree, runs it over the schema corpus and maps the result into the overlay."""
-import os
-from vcheck import write_overlay
+tree, runs it over the schema corpus (/verif/yang) for each code-generation configuration and
+maps the result into the build overlay (nothing is written to /repo)."""
+import glob, json, os, shutil, subprocess
+import vcheck
+from vcheck import VERIF, REPO, BUILD, GOENV, write_overlay, sha_files, repo_go_files, log
+
+Y = os.path.join(VERIF, "yang")
+COMMON = ["-generate_fakeroot", "-fakeroot_name=device", "-generate_getters", "-generate_append", "-generate_delete",
+          "-generate_rename", "-generate_populate_defaults", "-generate_leaf_getters", "-yangpresence", "-include_schema"]
+
+# name -> (yang files, flags, properties of the configuration)
+CONFIGS = {
+    "vmain_u": (["v-main.yang", "v-types.yang", "v-defu.yang"], ["-generate_simple_unions"], {"compress": False, "wrapper_unions": False}),
+    "vmain_w": (["v-main.yang", "v-types.yang"], [], {"compress": False, "wrapper_unions": True}),
+}
+
+REGISTER = '''//go:build verif
+
+package %(name)s
+
+import (
+	"github.com/openconfig/ygot/internal/verifharness/reg"
+	"github.com/openconfig/ygot/ygot"
+)
+
+func init() {
+	reg.Register(&reg.Pkg{
+		Name:       "%(name)s",
+		Flags:      map[string]bool{%(flags)s},
+		NewRoot:    func() ygot.ValidatedGoStruct { return &Device{} },
+		Schema:     Schema,
+		Unmarshal:  Unmarshal,
+		Enum:       ΛEnum,
+		SchemaTree: SchemaTree,
+	})
+}
+'''
+
+
+def gen_key():
+    files = repo_go_files() + glob.glob(os.path.join(Y, "*.yang")) + [os.path.join(VERIF, "lib", "vgen.py")]
+    return sha_files(files)
 
 
 def prepare_overlay():
-    return write_overlay(), {}
+    """Returns (overlay path, info). info['generator'] holds per-config outcomes."""
+    gen_root = os.path.join(BUILD, "gen")
+    os.makedirs(gen_root, exist_ok=True)
+    key = gen_key()
+    keyfile = os.path.join(gen_root, ".key")
+    info_file = os.path.join(gen_root, "info.json")
+    if os.path.exists(keyfile) and open(keyfile).read() == key and os.path.exists(info_file):
+        info = json.load(open(info_file))
+    else:
+        info = {"generator": {}, "generator_build": None}
+        genbin = os.path.join(BUILD, "bin", "generator")
+        os.makedirs(os.path.dirname(genbin), exist_ok=True)
+        p = subprocess.run(["go", "build", "-o", genbin, "./generator"], cwd=REPO, env=GOENV,
+                           stdout=subprocess.PIPE, stderr=subprocess.STDOUT, text=True)
+        info["generator_build"] = "ok" if p.returncode == 0 else p.stdout[-2000:]
+        for name, (yfiles, flags, props) in CONFIGS.items():
+            d = os.path.join(gen_root, name)
+            shutil.rmtree(d, ignore_errors=True)
+            os.makedirs(d)
+            if p.returncode != 0:
+                info["generator"][name] = {"ok": False, "output": "generator does not build"}
+                continue
+            cmd = [genbin, "-path=" + Y, "-output_file=" + os.path.join(d, "gen.go"), "-package_name=" + name] + COMMON + flags + \
+                  [os.path.join(Y, f) for f in yfiles]
+            q = subprocess.run(cmd, cwd=d, stdout=subprocess.PIPE, stderr=subprocess.STDOUT, text=True)
+            ok = q.returncode == 0 and os.path.exists(os.path.join(d, "gen.go"))
+            info["generator"][name] = {"ok": ok, "output": q.stdout[-1500:], "flags": flags, "yang": yfiles}
+            if ok:
+                fl = ", ".join('"%s": %s' % (k, "true" if v else "false") for k, v in sorted(props.items()))
+                open(os.path.join(d, "zz_register.go"), "w").write(REGISTER % {"name": name, "flags": fl})
+        imports = "\n".join('\t_ "github.com/openconfig/ygot/internal/verifharness/gen/%s"' % n
+                            for n, r in sorted(info["generator"].items()) if r["ok"])
+        open(os.path.join(gen_root, "zz_gen_imports.go"), "w").write(
+            "//go:build verif\n\npackage main\n\nimport (\n%s\n)\n" % imports)
+        json.dump(info, open(info_file, "w"), indent=1)
+        open(keyfile, "w").write(key)
+    extra = {}
+    for name, r in info["generator"].items():
+        if r["ok"]:
+            for f in ("gen.go", "zz_register.go"):
+                extra[os.path.join(REPO, "internal", "verifharness", "gen", name, f)] = os.path.join(gen_root, name, f)
+    extra[os.path.join(REPO, "internal", "verifharness", "ydrive", "zz_gen_imports.go")] = os.path.join(gen_root, "zz_gen_imports.go")
+    # accessor files exposing unexported functions: harness/accessors/<pkg dir with '__' for '/'>/<file>.go
+    for f in glob.glob(os.path.join(VERIF, "harness_accessors", "*", "*.go")):
+        pkgdir = os.path.basename(os.path.dirname(f)).replace("__", "/")
+        extra[os.path.join(REPO, pkgdir, "zz_verif_" + os.path.basename(f))] = f
+    return write_overlay(extra), info
